@@ -491,7 +491,7 @@ def check_C17(ctx):
     ff = os.path.join(ctx.scratch, 'faults.lst'); open(ff, 'w').write(''.join(f'{f} {v} {t}\n' for f, v, t, _ in beh))
     paths = ctx.run_driver(b, 'c17_replay', shards=4, extra=f'file={ff}', timeout=900)
     ctx.validate(paths)
-    trace_drivers(ctx, [('c17_export', 16, 1500), ('c17_stream', 16, 1500)], pure_drivers=['c17_export'])
+    trace_drivers(ctx, [('c17_export', 16, 1500), ('c17_stream', 16, 1500), ('c17_corners', 16, 900)], pure_drivers=['c17_export', 'c17_corners'])      # c17_corners: stream round trips of corner-alphabet integers and numerator/denominator pairs
     ctx.notes.append(f'fault behaviours enumerated by TLC and replayed: {len(beh)}')
     return ctx.finish('fault_enumeration',
         rule='R2: IOModel = export/import round trip, count formula and zero nail bits for every v<=VMAX x size x order x endian x EVERY nail count; raw format round trip and rejection of every '
